@@ -30,7 +30,11 @@ def _ops():
     from metapype.model import metapype_io, mp_io
 
     def pick(root, k):
-        nodes = list(walk(root))
+        nodes, stack = [], [root]          # pre-order without recursion (documents nested deeper than the recursion budget)
+        while stack:
+            n = stack.pop()
+            nodes.append(n)
+            stack.extend(reversed(n.children))
         return nodes[(k * 7919) % len(nodes)]
 
     def rule_for(n):
@@ -333,8 +337,76 @@ def record(kind, seed, plan):
     return tr
 
 
+def record_abyss(depth):
+    """A document nested deeper than the interpreter's recursion budget (sections within sections): most read-only entry points
+    give up with RecursionError - a result like any other; none may leave the tree changed, whatever it does instead of
+    recursing.  Built, tracked and projected without recursion; the recursion limit stays what the library runs under."""
+    ops = G["ops"]
+    Node.store.clear()
+    w = World(clear=False)
+
+    def T(n):
+        w.track(n)
+        return n
+    root = T(Node("eml"))
+    root.add_attribute("packageId", "p.1.1")
+    root.add_attribute("system", "s")
+    ds = T(Node("dataset"))
+    root.add_child(ds)
+    for nm in ("title", "creator", "abstract", "contact"):
+        ds.add_child(T(Node(nm, content="t" if nm == "title" else None)))
+    cur = ds.children[2]
+    for i in range(depth):
+        sec = T(Node("section"))
+        if i < 4 or i % 97 == 0:
+            cur.add_child(T(Node("title", content="level %d" % i)))
+        cur.add_child(sec)
+        if i < 4:
+            cur.add_child(T(Node("para", content="after")))
+        cur = sec
+    cur.add_child(T(Node("bottomOnly", content="bottom")))
+    _COPIES.clear()
+    _TWINS.clear()
+    _CANDS.clear()
+    _COPIES[id(root)] = Node("eml")
+    _TWINS[id(root)] = Node("eml")
+    _CANDS[id(root)] = Node("dataset")
+    tr = {"init": w.pi(ALLF + ("plink",)), "events": [], "desc": {"tree": "abyss", "depth": depth, "nodes": len(w.nodes)}}
+    prev = canon(tr["init"], ALLF)
+    from harness.common import deadline
+    def fad(r, nm):
+        acc = []
+        r.find_all_descendants(nm, acc)
+        return acc
+    # searches that have to go all the way down (a miss, a hit at the very bottom) from the root and from inner nodes
+    deep = {"abyss:find_descendant:miss": lambda r: r.find_descendant("zzNotThere"),
+            "abyss:find_descendant:bottom": lambda r: r.find_descendant("bottomOnly"),
+            "abyss:find_descendant:inner-miss": lambda r: r.children[0].find_descendant("zzNotThere"),
+            "abyss:find_all_descendants:miss": lambda r: fad(r, "zzNotThere"),
+            "abyss:find_all_descendants:bottom": lambda r: fad(r, "bottomOnly"),
+            "abyss:find_all_descendants:every-level": lambda r: len(fad(r, "section")),
+            "abyss:single_by_path": lambda r: r.find_single_node_by_path(["dataset", "abstract"] + ["section"] * depth + ["bottomOnly"]),
+            "abyss:all_by_path": lambda r: r.find_all_nodes_by_path(["dataset", "abstract"] + ["section"] * depth + ["bottomOnly"]),
+            "abyss:ancestry-of-the-bottom": lambda r: len(w.nodes[-1].get_ancestry()) if hasattr(w.nodes[-1], "get_ancestry") else 0}
+    allops = dict(ops)
+    allops.update(deep)
+    for name in sorted(allops):
+        reg_before = len(Node.store)
+        try:
+            with deadline(60):
+                res = render(w, allops[name](root))
+        except BaseException as e:  # noqa: BLE001
+            res = "raised:" + type(e).__name__
+        post = w.pi(ALLF + ("plink",))
+        tr["events"].append({"op": "readonly", "fn": name, "args": [], "ok": True, "ret": 0, "res": w.atoms.atom(res if len(res) < 2000 else res[:2000]), "post": post,
+                             "regdelta": len(Node.store) - reg_before})
+        if canon(post, ALLF) != prev or post["plink"] != tr["init"]["plink"]:
+            break
+    return tr
+
+
 def w_record(jobs):
-    return [record(*j) for j in jobs]
+    return [record(*j) if j[0] != "abyss" else record_abyss(j[1]) for j in jobs]
 
 
 def run(rep, tier, seed):
@@ -362,6 +434,7 @@ def run(rep, tier, seed):
     for i in range(nseq):
         kind = ["fixture", "generated", "entities", "ns", "default-ns", "mutated", "stripped", "exotic", "unregistered", "padded-typed", "shadowed", "falsy"][i % 12]
         jobs.append((kind, seed * 977 + i, [rnd.choice(sorted(ops)) for _ in range(24)]))
+    jobs.append(("abyss", 1100, []))
     traces = [tr for chunk in parallel(w_record, jobs, chunk=1) for tr in chunk]
     strip = lambda tr: {"init": tr["init"], "events": tr["events"]}  # noqa: E731
     rejects, rr = judge_traces([strip(tr) for tr in traces], PID, label="readonly", timeout=3000)
